@@ -51,6 +51,10 @@ SIGS.update({13: dict(path=[], query=_QA, body=_J, responses=[200]),
              25: dict(path=['string', 'integer'], query=_QB + _QD + _QE, body=_J, responses=[200, 404, 500])})
 SIGS_J = {str(k): v for k, v in SIGS.items()}
 KINDS = ['plain', 'jwt', 'basic', 'tag']
+AUTH = {'jwt': 'jwtAuth', 'basic': 'basicAuth', 'basic2': 'basicAuth', 'key_header': 'keyHeader', 'key_query': 'keyQuery', 'key_cookie': 'keyCookie'}
+# what each scheme must say (the application's fangs look for the credential exactly there)
+SCHEMES = {'jwtAuth': {'type': 'http', 'scheme': 'bearer'}, 'basicAuth': {'type': 'http', 'scheme': 'basic'},
+           'keyHeader': {'type': 'apiKey', 'in': 'header', 'name': 'X-Key'}, 'keyQuery': {'type': 'apiKey', 'in': 'query', 'name': 'key'}, 'keyCookie': {'type': 'apiKey', 'in': 'cookie', 'name': 'key'}}
 PNAMES = ['id', 'p', 'name', 'v', 'k', 'x2', 'user_id', 'n']
 
 
@@ -58,7 +62,7 @@ def gen_fangs(rng, n_max, auth_rate=0.35):
     out = []
     for _ in range(rng.choice([0, 0, 1, 1, 2, n_max][:2 + 2 * n_max])):
         k = rng.random()
-        out.append({'k': 'jwt' if k < auth_rate / 2 else rng.choice(['basic', 'basic', 'basic2']) if k < auth_rate else 'tag' if k < auth_rate + 0.25 else 'plain', 'id': rng.randrange(1, 5)})
+        out.append({'k': 'jwt' if k < auth_rate / 3 else rng.choice(['basic', 'basic', 'basic2']) if k < 2 * auth_rate / 3 else rng.choice(['key_header', 'key_query', 'key_cookie']) if k < auth_rate else 'tag' if k < auth_rate + 0.25 else 'plain', 'id': rng.randrange(1, 5)})
     return out[:n_max]
 
 
@@ -193,7 +197,7 @@ def expected_op(names, k, chain):
     s = SIGS[k]
     tys = s['path'] + ['string'] * max(0, len(names) - len(s['path']))
     return {'path': [[n, t] for n, t in zip(names, tys)], 'query': sorted(map(tuple, s['query'])), 'body': s['body'], 'responses': sorted(s['responses']),
-            'security': [{'jwt': 'jwtAuth', 'basic': 'basicAuth', 'basic2': 'basicAuth'}[f['k']] for f in chain if f['k'] in ('jwt', 'basic', 'basic2')],
+            'security': [AUTH[f['k']] for f in chain if f['k'] in AUTH],
             'tags': ['t%d' % f['id'] for f in chain if f['k'] == 'tag']}
 
 
@@ -260,12 +264,16 @@ def judge(case, out, m):
         for s in op.get('security', []):
             for name in s:
                 if name not in doc.get('components', {}).get('securitySchemes', {}): v.append(('violation', f'{where}: security scheme {name} is not defined in components'))
+                else:
+                    sch = doc['components']['securitySchemes'][name]
+                    for kk, vv in SCHEMES.get(name, {}).items():
+                        if sch.get(kk) != vv: v.append(('violation', f'{where}: security scheme {name} is documented with {kk}: {sch.get(kk)!r}, the fang looks for the credential with {kk}: {vv!r}'))
         if (t, meth) in want_pairs:
             names, k, chain = want_pairs[(t, meth)]
             exp, got = expected_op(names, k, chain), read_op(op)
             for field in ('path', 'query', 'body', 'responses', 'security', 'tags'):
                 if exp[field] != got[field]: v.append(('violation', f'{where} (handler h{k}): {field} documented as {got[field]}, the application has {exp[field]}'))
-            if bool(got['security']) != any(f['k'] in ('jwt', 'basic', 'basic2') for f in chain): v.append(('violation', f'{where}: security requirement {got["security"]} but authentication fangs around it: {[f["k"] for f in chain]}'))
+            if bool(got['security']) != any(f['k'] in AUTH for f in chain): v.append(('violation', f'{where}: security requirement {got["security"]} but authentication fangs around it: {[f["k"] for f in chain]}'))
     # a request built from a documented operation reaches its handler
     for pr in out.get('probes', []):
         key = (pr['path'], pr['method'])
